@@ -468,7 +468,7 @@ def run_verus(unit_name, path, rlimit=None, timeout=600):
                 continue
             if d.get('level') in ('error', 'error: internal compiler error'):
                 diags.append(d)
-    return dict(rc=rc, json=js, diags=diags, stderr=err, seconds=secs)
+    return dict(rc=rc, json=js, diags=diags, stderr=err, seconds=secs, path=path)
 
 
 def interpret(unit, meta, gen_text, res):
@@ -479,6 +479,20 @@ def interpret(unit, meta, gen_text, res):
         msg = d.get('message', '')
         if msg.startswith('aborting due to'):
             continue
+        # a span inside a macro of another file (panic!, unreachable!, assert! -> vstd/std_specs) is mapped to the place of its expansion in
+        # the generated file; line numbers of foreign files mean nothing here
+        def local(s0):
+            gen_name = os.path.basename(res.get('path', '') or '')
+            if not gen_name:
+                return s0
+            s1, hops = s0, 0
+            while s1 is not None and hops < 8 and os.path.basename(str(s1.get('file_name', ''))) != gen_name:
+                s1 = (s1.get('expansion') or {}).get('span')
+                hops += 1
+            if s1 is not None and s1 is not s0:
+                s1 = dict(s1, is_primary=s0.get('is_primary'))
+            return s1
+        d = dict(d, spans=[x for x in (local(s0) for s0 in d.get('spans', [])) if x is not None] or d.get('spans', []))
         prim = [s for s in d.get('spans', []) if s.get('is_primary')]
         sp = prim[0] if prim else (d['spans'][0] if d.get('spans') else None)
         cls = classify(msg)
